@@ -33,28 +33,28 @@ T = {
         , 'scipy.special trusted for Bessel functions; models built through the command line and through the classes of the library (load objects created before the geometry is scaled); repeated solves on one object; load kinds by number (command line) against the same elements registered through the library'),
  'C09': ( 'Kirchhoff current law in the CURRENT DATA block'
         , 'offline checker over the parsed report: union-find junction clusters from the spec, signed sum of J lines, E lines, J line vs pulse currents through that wire end; enumerated junction topologies'
-        , 'report reader is keyed on the fixed MININEC block headers'),
+        , 'report reader is keyed on the fixed MININEC block headers; the known finding end1-junction-line-single-pulse is granted only to the wire defined first on its junction; ends exactly the matching distance apart are expected joined (README: within 1/1000)'),
  'C10': ( 'far field = radiation integral; dBi <-> V/m consistency'
         , 'executable reference (point-moment and exact-segment radiation integrals) on the recorded currents as postcondition of compute_far_field + table identities (gain = |E|^2 r^2 / 59.96 P, power scaling, 1/r, 360 deg periodicity, zenith azimuth independence)'
         , 'reference uses only pulse points, ends and currents'),
  'C11': ( 'real ground affects only the far field; conductivity limit; medium split / far medium'
         , 'bit-identity of Z, rhs, currents between ideal and real ground + recording proxy proving the matrix fill never reads the constants; monotone convergence in sigma; metamorphic medium split / far boundary'
-        , 'reflection-point distance for the far-medium variant computed by the harness from heights and elevation; negative zenith angles, interface through the origin, azimuth sweep = single requests, radial screen on uniform soil, Medium objects shared between models'),
+        , 'reflection-point distance for the far-medium variant computed by the harness from heights and elevation; negative zenith angles, interface through the origin, azimuth sweep = single requests, radial screen on uniform soil, Medium objects shared between models, a width given for the last medium (documented as unused), radial screen without naming the boundary, first of two media up to 1e12 S/m'),
  'C12': ( 'number, numbering and placement of pulses from the wire topology'
         , 'independent geometry reference (own segmentation, union-find junctions with the 1e-3 tolerance, ground detection) vs len(pulses), pulse points, segments, ANTENNA GEOMETRY block; end points perturbed around the tolerance'
-        , 'chains of near ends (diameter above the tolerance, neighbours within it) are expected joined transitively; the first-match joining of the code is emulated to classify the known finding near-end-chain-first-match; scaled structures, tapered wires (tolerance from the program\'s own shortest segment of the exact structure), open arcs'),
+        , 'chains of near ends (diameter above the tolerance, neighbours within it) are expected joined transitively; the first-match joining of the code is emulated to classify the known finding near-end-chain-first-match; scaled structures, tapered wires (tolerance from the program\'s own shortest segment of the exact structure), open arcs; closed figures of arcs and chords with freely numbered objects judged by an own topology (check_curves)'),
  'C13': ( 'segmentation tiles each object; taper, arc, helix, transformation rules'
         , 'contract on compute_segments + independent formulas (README) for arcs/helices, taper growth/min/max/mirror rules, transformations recomputed from the spec'
-        , 'taper requests the code rejects (fallback to equal segments) are counted, not judged'),
+        , 'taper requests the code rejects (fallback to equal segments) are counted, not judged; wires over a ground plane with ends inside / outside the ground distance; the 65 antennas of /repo/test; a maximum alone through the library'),
  'C14': ( 'no history dependence, no run-to-run variation'
         , 'history + executable model: random operation sequences on one object vs a fresh object per step (state and cache coherence); frequency sweep vs single runs; byte comparison of stdout and files over fresh interpreters with varied PYTHONHASHSEED / allocator / heap layout'
-        , 'fresh object built by the same code is the model of "pure function of (spec, f)"; frequency steps of parts per million, repeated requests at other levels / distances, compute bursts; the same model through the command line and through the library in several call orders (routes) must give identical matrices, currents and reports'),
+        , 'fresh object built by the same code is the model of "pure function of (spec, f)"; frequency steps of parts per million, repeated requests at other levels / distances, compute bursts; the same model through the command line and through the library in several call orders (routes) must give identical matrices, currents and reports; two live objects of different models computed in turns; report sections with and without the other field request; sweep steps with the wire radius on the thin-wire limit against single runs at f0 + k * inc'),
  'C15': ( 'option file round trip'
         , 'model equality between M and main(as_cmdline(M)) (objects, taper, transforms, sources, per-pulse load impedance, media), feed impedance within printed precision, second-generation text fixed point'
         , 'the reader is the program itself'),
  'C16': ( 'field tables contain exactly the requested points'
         , 'contracts on compute_near_field / compute_far_field with the grid recomputed in exact rational arithmetic; counts and order vs report text'
-        , 'tolerance (n+4) ulp of the largest coordinate (the repaired code reproduces numpy.arange values)'),
+        , 'tolerance (n+4) ulp of the largest coordinate (the repaired code reproduces numpy.arange values); the points the fields are evaluated at (near_field_iter) in table order'),
  'C17': ( 'pulse addressing of sources and loads'
         , 'parsed ANTENNA GEOMETRY table vs geometry reference vs Excitation.idx / load.pulses; both addressing forms give identical models; listings name the pulse; all-forms attach each pulse exactly once'
         , 'exhaustive over all valid pulse numbers of each generated model'),
@@ -63,7 +63,7 @@ T = {
         , 'prompt order taken from the comments in as_basic_input and validated on the 48 .mini files of the test directory'),
  'C19': ( 'report text carries the computed values'
         , 'offline token checker pairing every numeric token of every block with the in-memory value by token kind + format_float round-trip contract swept over 1e-30..1e12'
-        , 'V/m table format (%.3E / %.2f) is a known finding by mechanism'),
+        , 'V/m table format (%.3E / %.2f) is a known finding by mechanism; END CONNECTION column: minus own number on the ground plane, 0 without an earlier object at that end, else the number of an earlier object (or the object itself) ending there'),
  'C20': ( 'fail-safe command line'
         , 'grammar-based argv fuzzer (valid generated command lines with hostile substitutions) run through main() under the event recorder; outcome classifier keyed by (exception type, innermost repository function)'
         , 'strata: fixed valid command lines, boundary-value lists, enumerated single-field substitutions, magnitude ladder over the overflow decades, random mutated lines; new mechanisms are violations; remaining mechanisms listed in known_findings.json'),
